@@ -16,8 +16,9 @@ ID = "C19"
 LEVEL = "exploration"
 PROBES = ["lock_contention", "overlapping_loads"]
 RULE = ("seeded runs; a run = one product on simfs/local storage opened once, 4 actor sets "
-        "(scenario in {same-variable, different-images, pickled-copy, mixed}; 2-3 loader actors "
-        "with 1-2 selections each) x 12 (quick) / 40 (thorough) seeded schedules each; the "
+        "(scenario in {same-variable, different-images, different-images-same-rows, "
+        "pickled-copy, mixed, sweep = every actor walks over 2-5 images; a quarter of the products "
+        "have 5-8 image files}; 2-3 loader actors with 1-5 selections each) x 12 (quick) / 40 (thorough) seeded schedules each; the "
         "scheduler decides every switch at open/seek/read/close/lock-acquire points (modes: "
         "uniform random with a switch probability, PCT priorities, and <=3 forced line-level "
         "pre-emptions inside ceos_alos2 frames); each "
@@ -38,14 +39,17 @@ def n_runs(tier):
 
 
 def generate(rng, tier, index):
+    many = rng.random() < 0.25
     wp = world.gen_world_plan(rng, backends=("simfs", "simfs", "simfs_opt", "local"),
-                              max_images=3, max_lines=16, max_pixels=8)
+                              max_images=3, max_lines=16, max_pixels=8,
+                              n_images=rng.randint(5, 8) if many else None)
     n_img = len(wp["images"])
     r = common.pick_rpc(rng, rng.choice(wp["images"])["lines"])
     sets = []
     for _ in range(4):
         scenario = rng.choice(["same-variable", "different-images", "different-images-same-rows",
-                               "pickled-copy", "mixed"])
+                               "pickled-copy", "mixed"] + (["sweep", "sweep", "sweep"] if many
+                                                           else ["sweep"]))
         if scenario == "different-images-same-rows" and n_img < 2:
             scenario = "pickled-copy"
         if scenario == "different-images" and n_img < 2:
@@ -53,6 +57,19 @@ def generate(rng, tier, index):
         n_act = rng.choice([2, 2, 3])
         img0 = rng.randrange(n_img)
         actors = []
+        if scenario == "sweep":
+            # every actor walks over several images (its own order), one selection each: handle /
+            # buffer pools and per-file state see arrivals, departures and evictions
+            for a in range(n_act):
+                items = []
+                for _ in range(rng.randint(2, 5)):
+                    img = rng.randrange(n_img)
+                    im = wp["images"][img]
+                    items.append([img, rng.randrange(2),
+                                  select.gen_selection(rng, im["lines"], im["pixels"])])
+                actors.append({"items": items})
+            sets.append({"scenario": scenario, "actors": actors})
+            continue
         for a in range(n_act):
             if scenario == "same-variable":
                 img, copy = img0, 0
@@ -117,10 +134,11 @@ def execute(plan):
             # sequential reference, selection by selection
             jobs = []
             for a in aset["actors"]:
-                name = prod.images[a["image"]]
-                da = copies[a["copy"]]["imagery"][prod.groups[name]]["data"]
+                items = a.get("items") or [[a["image"], a["copy"], sel] for sel in a["selections"]]
                 good = []
-                for sel in a["selections"]:
+                for img_k, copy_k, sel in items:
+                    name = prod.images[img_k]
+                    da = copies[copy_k]["imagery"][prod.groups[name]]["data"]
                     # the single-threaded load also runs as a (lone) actor, so that a lock the
                     # load path takes twice shows up as a deadlock instead of hanging the harness
                     solo = Sched(script=[], max_steps=5000)
@@ -133,9 +151,9 @@ def execute(plan):
                     elif "S" in solo.err:
                         bump("selection-rejected-sequentially")
                     else:
-                        good.append((sel, np.array(solo.res["S"], copy=True)))
+                        good.append((da, sel, np.array(solo.res["S"], copy=True)))
                 if good:
-                    jobs.append((da, good))
+                    jobs.append(good)
             if len(jobs) < 2:
                 bump("actor-set-skipped")
                 continue
@@ -144,9 +162,9 @@ def execute(plan):
                     continue
                 rng = random.Random(plan["sched_seed"] * 1000003 + si * 1009 + j)
                 sched, mode = _sched_for(plan, rng, plan.get("schedule"))
-                for ai, (da, good) in enumerate(jobs):
-                    def work(da=da, good=good):
-                        return [select.apply(da, sel).load().values for sel, _ in good]
+                for ai, good in enumerate(jobs):
+                    def work(good=good):
+                        return [select.apply(da, sel).load().values for da, sel, _ in good]
                     sched.spawn("L%d" % ai, work)
                 mark = SIM.mark()
                 try:
@@ -172,14 +190,14 @@ def execute(plan):
                 elif sched.budget:
                     bad = Violation(ID, "no-progress", site, dict(where, steps=sched.steps))
                 else:
-                    for ai, (da, good) in enumerate(jobs):
+                    for ai, good in enumerate(jobs):
                         nm = "L%d" % ai
                         if nm in sched.err:
                             bad = Violation(ID, "load-raised", site, dict(
                                 where, actor=nm, error=exc_text(sched.err[nm])))
                             break
                         res = sched.res.get(nm)
-                        for (sel, ref), got in zip(good, res):
+                        for (_, sel, ref), got in zip(good, res):
                             if got.shape != ref.shape or got.dtype != ref.dtype or \
                                     not np.array_equal(bits_of(got, prod.level),
                                                        bits_of(ref, prod.level)):
